@@ -192,6 +192,10 @@ def templates():
     add('1d-real-vs-int', 'binop', cost=1, adims=['x'], asizes=[2], bdims=['x'], bsizes=[2], lk={'a:x': 'f', 'b:x': 'i'})
     add('1d-int-data', 'binop', cost=1, adims=['x'], asizes=[2], bdims=['x'], bsizes=[2], dkind='i')
     add('1d-primed', 'binop', cost=1, adims=['x'], asizes=[2], bdims=['x'], bsizes=[2], prime=True, op='sub')
+    # a dimension of length 1 that only one operand has (its single label must survive), both operand orders, 0-d partner
+    for k, (ad, asz, bd, bsz) in enumerate(((['x'], [2], ['x', 'z'], [2, 1]), (['x', 'z'], [2, 1], ['x'], [2]), ([], [], ['z'], [1]), (['z'], [1], [], []),
+                                            (['x'], [1], ['y'], [1]), (['y', 'x'], [1, 2], ['z', 'x'], [1, 2]), (['x'], [2], ['z', 'x'], [1, 2]))):
+        add('single-label-new-dim-%d' % k, 'binop', cost=1.5, adims=ad, asizes=asz, bdims=bd, bsizes=bsz, op='sub', lk={'z': 'i'})
     # operands that are results of earlier operations on cache-primed arrays (reordered by list indexing, reversed, re-sorted)
     for how in ('take-labels', 'ix-list', 'reverse-slice', 'sort'):
         for which in ('a', 'b', 'ab'):
